@@ -281,8 +281,8 @@ func oracleHistory(script, res string) string {
 	}
 	// after a failed/panicking contfrac call the slice may legitimately be re-ordered: compare as multisets
 	got := strings.Split(rf[2], "/")
-	if rf[2] == "-" {
-		got = nil
+	if rf[2] == "-" && len(slots) == 0 {
+		got = nil // no slice at all ("-" is also how a single empty slice prints)
 	}
 	if len(got) != len(slots) {
 		return "history: number of slots at the end"
